@@ -17,7 +17,7 @@ import (
 
 func init() {
 	register(&Rule{
-		ID: "C05.synthetic-range-exact", Prop: "C05", Also: []string{"C01"}, Floor: 6, Controls: 0,
+		ID: "C05.synthetic-range-exact", Prop: "C05", Also: []string{"C01"}, Floor: 3, Controls: 0,
 		Doc: "Value.Range describes a known value exactly: the number range it synthesises has the receiver itself as both bounds with both bounds inclusive, the string range has the receiver's whole string as its prefix, the collection range built when the length is known uses one expression for both length bounds (and the widest range 0 … MaxInt otherwise), the range of a null says 'null', the range of an unrefined unknown says 'nullness unknown', and every synthetic range is marked not-null before it is returned — ValueRange.Includes and the range-based short-cuts of Equals, LessThan and GreaterThan take these ranges for the truth about known operands",
 		Run: runSyntheticRangeExact,
 	})
@@ -62,84 +62,124 @@ func runSyntheticRangeExact(rr *RuleRun) {
 	}
 	nlits := 0
 	var synthVar types.Object
+	// the function itself, and unexported helpers it hands the receiver to (the synthetic refinements may be
+	// built in a function of their own)
+	type unit struct {
+		fd   *ast.FuncDecl
+		subj types.Object
+		cf   *CondFacts
+	}
+	units := []unit{{fd, recv, cf}}
 	inspectNoLit(fd.Body, func(n ast.Node) bool {
-		lit, ok := n.(*ast.CompositeLit)
+		call, ok := n.(*ast.CallExpr)
 		if !ok {
 			return true
 		}
-		tn := namedTypeNoPtr(info.TypeOf(lit))
-		key := "cty.Value.Range/" + strings.TrimPrefix(tn, "cty.")
-		// remember the variable the synthetic refinement is kept in
-		if as, ok := c.Parent(c.Parent(lit)).(*ast.AssignStmt); ok && len(as.Lhs) == 1 {
-			if o := objOf(info, as.Lhs[0]); o != nil && strings.HasPrefix(tn, "cty.refinement") {
-				if _, isUnary := c.Parent(lit).(*ast.UnaryExpr); isUnary && tn != "cty.refinementNullable" || synthVar == nil && tn != "cty.refinementNullable" {
-					synthVar = o
-				}
-			}
+		f := callee(info, call)
+		if f == nil || f.Pkg() == nil || shortPkg(f.Pkg()) != "cty" || f.Exported() {
+			return true
 		}
-		switch tn {
-		case "cty.refinementNumber":
-			nlits++
-			mn, mx, mi, xi := litField(lit, "min"), litField(lit, "max"), litField(lit, "minInc"), litField(lit, "maxInc")
-			switch {
-			case mn == nil || mx == nil || objOf(info, mn) != recv || objOf(info, mx) != recv:
-				rr.Violation(key, lit.Pos(), "the synthetic number range of a known value does not have the value itself as both its lower and its upper bound: the range reported for a known number is not the number")
-			case mi == nil || xi == nil || !isTrue(mi) || !isTrue(xi):
-				rr.Violation(key, lit.Pos(), "the synthetic number range of a known value does not include both of its (equal) bounds: a range [v, v) or (v, v] is empty, so Includes rejects the value itself and range-based comparisons with it give definite wrong answers")
-			default:
-				rr.OK(key, lit.Pos(), "min = max = the receiver, both inclusive")
-			}
-		case "cty.refinementString":
-			nlits++
-			p := litField(lit, "prefix")
-			call, _ := ast.Unparen(p).(*ast.CallExpr)
-			ok := false
-			if call != nil {
-				if se, isSel := call.Fun.(*ast.SelectorExpr); isSel && se.Sel.Name == "AsString" && objOf(info, se.X) == recv {
-					ok = true
-				}
-			}
-			if ok {
-				rr.OK(key, lit.Pos(), "the prefix is the receiver's whole string")
-			} else {
-				rr.Violation(key, lit.Pos(), "the synthetic string range of a known value does not use the value's whole string as its prefix: the range admits strings the known value is not equal to, or excludes the value itself")
-			}
-		case "cty.refinementCollection":
-			nlits++
-			mn, mx := litField(lit, "minLen"), litField(lit, "maxLen")
-			if mn == nil || mx == nil {
-				rr.Violation(key, lit.Pos(), "a synthetic collection range leaves a length bound at its zero value")
-				return true
-			}
-			knownLen := cf.HoldsAt(lit, func(cond ast.Expr, truth bool) bool {
-				call, ok := ast.Unparen(cond).(*ast.CallExpr)
-				if !ok || !truth {
-					return false
-				}
-				se, ok := call.Fun.(*ast.SelectorExpr)
-				return ok && se.Sel.Name == "IsKnown"
-			})
-			if knownLen {
-				if exprStr(mn) == exprStr(mx) {
-					rr.OK(key, lit.Pos(), "known length: both bounds are "+exprStr(mn))
-				} else {
-					rr.Violation(key, lit.Pos(), fmt.Sprintf("the length of the collection is known here, but the synthetic range has different bounds (%s … %s): the range reported for a known collection is not its length", exprStr(mn), exprStr(mx)))
-				}
-			} else {
-				lo, ok1 := constInt(info, mn)
-				tv, ok2 := info.Types[mx]
-				wide := ok2 && tv.Value != nil && constant.Compare(tv.Value, token.GEQ, constant.MakeInt64(1<<31-1))
-				if ok1 && lo == 0 && wide {
-					rr.OK(key, lit.Pos(), "length not known: the widest range")
-				} else {
-					rr.Violation(key, lit.Pos(), "the length of the collection is not established to be known here, and the synthetic range is narrower than 0 … MaxInt: lengths the value may still have are excluded")
+		hd := c.Decl("cty", funcDeclKey(f))
+		if hd == nil || hd.Body == nil || hd == fd || hd.Recv != nil {
+			return true
+		}
+		for i, a := range call.Args {
+			if objOf(info, a) == recv {
+				if p := paramIdent(hd, i); p != nil {
+					units = append(units, unit{hd, info.Defs[p], c.CondFacts(hd.Body, info, nil)})
+					// the variable the helper's result is kept in
+					if as, ok := c.Parent(call).(*ast.AssignStmt); ok && len(as.Lhs) == 1 {
+						if o := objOf(info, as.Lhs[0]); o != nil && synthVar == nil {
+							synthVar = o
+						}
+					}
 				}
 			}
 		}
 		return true
 	})
+	for _, u := range units {
+		recv, cf := u.subj, u.cf
+		where := "cty." + declName(u.fd)
+		inspectNoLit(u.fd.Body, func(n ast.Node) bool {
+			lit, ok := n.(*ast.CompositeLit)
+			if !ok {
+				return true
+			}
+			tn := namedTypeNoPtr(info.TypeOf(lit))
+			key := where + "/" + strings.TrimPrefix(tn, "cty.")
+			// remember the variable the synthetic refinement is kept in
+			if u.fd == fd {
+				if as, ok := c.Parent(c.Parent(lit)).(*ast.AssignStmt); ok && len(as.Lhs) == 1 {
+					if o := objOf(info, as.Lhs[0]); o != nil && strings.HasPrefix(tn, "cty.refinement") && tn != "cty.refinementNullable" {
+						synthVar = o
+					}
+				}
+			}
+			switch tn {
+			case "cty.refinementNumber":
+				nlits++
+				mn, mx, mi, xi := litField(lit, "min"), litField(lit, "max"), litField(lit, "minInc"), litField(lit, "maxInc")
+				switch {
+				case mn == nil || mx == nil || objOf(info, mn) != recv || objOf(info, mx) != recv:
+					rr.Violation(key, lit.Pos(), "the synthetic number range of a known value does not have the value itself as both its lower and its upper bound: the range reported for a known number is not the number")
+				case mi == nil || xi == nil || !isTrue(mi) || !isTrue(xi):
+					rr.Violation(key, lit.Pos(), "the synthetic number range of a known value does not include both of its (equal) bounds: a range [v, v) or (v, v] is empty, so Includes rejects the value itself and range-based comparisons with it give definite wrong answers")
+				default:
+					rr.OK(key, lit.Pos(), "min = max = the receiver, both inclusive")
+				}
+			case "cty.refinementString":
+				nlits++
+				p := litField(lit, "prefix")
+				call, _ := ast.Unparen(p).(*ast.CallExpr)
+				ok := false
+				if call != nil {
+					if se, isSel := call.Fun.(*ast.SelectorExpr); isSel && se.Sel.Name == "AsString" && objOf(info, se.X) == recv {
+						ok = true
+					}
+				}
+				if ok {
+					rr.OK(key, lit.Pos(), "the prefix is the receiver's whole string")
+				} else {
+					rr.Violation(key, lit.Pos(), "the synthetic string range of a known value does not use the value's whole string as its prefix: the range admits strings the known value is not equal to, or excludes the value itself")
+				}
+			case "cty.refinementCollection":
+				nlits++
+				mn, mx := litField(lit, "minLen"), litField(lit, "maxLen")
+				if mn == nil || mx == nil {
+					rr.Violation(key, lit.Pos(), "a synthetic collection range leaves a length bound at its zero value")
+					return true
+				}
+				knownLen := cf.HoldsAt(lit, func(cond ast.Expr, truth bool) bool {
+					call, ok := ast.Unparen(cond).(*ast.CallExpr)
+					if !ok || !truth {
+						return false
+					}
+					se, ok := call.Fun.(*ast.SelectorExpr)
+					return ok && se.Sel.Name == "IsKnown"
+				})
+				if knownLen {
+					if exprStr(mn) == exprStr(mx) {
+						rr.OK(key, lit.Pos(), "known length: both bounds are "+exprStr(mn))
+					} else {
+						rr.Violation(key, lit.Pos(), fmt.Sprintf("the length of the collection is known here, but the synthetic range has different bounds (%s … %s): the range reported for a known collection is not its length", exprStr(mn), exprStr(mx)))
+					}
+				} else {
+					lo, ok1 := constInt(info, mn)
+					tv, ok2 := info.Types[mx]
+					wide := ok2 && tv.Value != nil && constant.Compare(tv.Value, token.GEQ, constant.MakeInt64(1<<31-1))
+					if ok1 && lo == 0 && wide {
+						rr.OK(key, lit.Pos(), "length not known: the widest range")
+					} else {
+						rr.Violation(key, lit.Pos(), "the length of the collection is not established to be known here, and the synthetic range is narrower than 0 … MaxInt: lengths the value may still have are excluded")
+					}
+				}
+			}
+			return true
+		})
+	}
 	if nlits < 3 {
-		rr.Broken(fmt.Sprintf("stale anchor: Value.Range builds %d synthetic number / string / collection refinements, expected at least 3", nlits))
+		rr.Assumed("cty.Value.Range/synthetic refinements", fd.Pos(), fmt.Sprintf("only %d synthetic number / string / collection refinements were found in Value.Range and the helpers it hands its receiver to: built somewhere this rule does not follow", nlits))
 	}
 	// the final return is dominated by setNull(tristateFalse) on the synthetic refinement
 	var setNull ast.Node
@@ -442,6 +482,185 @@ func runKindFamiliesComplete(rr *RuleRun) {
 					sort.Strings(missing)
 					rr.Violation(key, sw.Pos(), fmt.Sprintf("the switch handles some kinds of the %s family but not %s: Go values of those types fall to the residual branch and cannot be bridged in this direction, although the sibling functions accept them", fam[0], strings.Join(missing, ", ")))
 				}
+			}
+			return true
+		})
+	}
+}
+
+// ---------------------------------------------------------------------------
+// C01.type-mismatch-needs-wholly-known-types
+
+func init() {
+	register(&Rule{
+		ID: "C01.type-mismatch-needs-wholly-known-types", Prop: "C01", Floor: 4, Controls: 0,
+		Doc: "in package cty a definite False is concluded from a mismatch of types only for types that are wholly known: where a function returning a cty.Value returns False / BoolVal(false) under a branch condition that two types are not Equal, or that one does not conform to the other (TestConformance), every type taking part as a 'given' side was established free of dynamic placeholders on that path (HasDynamicTypes() false for it, or HasWhollyKnownType() true for the value it is the type of) — a comparison of the root with DynamicPseudoType is not enough: a known object with a DynamicVal nested inside has a type that differs from, and does not conform to, the type it will have once that part is known, so 'the types differ' does not show that the values differ",
+		Run: runTypeMismatchNeedsWhollyKnown,
+	})
+}
+
+func runTypeMismatchNeedsWhollyKnown(rr *RuleRun) {
+	c := rr.Ctx
+	info := c.Info("cty")
+	for _, fd := range c.SortedDecls("cty") {
+		if fd.Body == nil || fd.Type.Results == nil || fd.Type.Results.NumFields() != 1 {
+			continue
+		}
+		if !isCtyValue(info.TypeOf(fd.Type.Results.List[0].Type)) {
+			continue
+		}
+		var cf *CondFacts
+		var env *aliasEnv
+		// canonical text of a type expression: aliases resolved, v.Type() ≡ v.ty
+		canonT := func(e ast.Expr) string {
+			var rec func(e ast.Expr, depth int) string
+			rec = func(e ast.Expr, depth int) string {
+				e = ast.Unparen(e)
+				if depth > 6 {
+					return exprStr(e)
+				}
+				switch x := e.(type) {
+				case *ast.Ident:
+					if v, ok := info.Uses[x].(*types.Var); ok && !v.IsField() && env.neverReassigned(v) {
+						if _, idx, rhs := findDefine(info, fd.Body, v); rhs != nil && len(rhs) > idx && len(rhs) == 1 {
+							return rec(rhs[0], depth+1)
+						}
+					}
+					if o := objOf(info, x); o != nil {
+						return objKey(o)
+					}
+					return x.Name
+				case *ast.SelectorExpr:
+					return rec(x.X, depth+1) + "." + x.Sel.Name
+				case *ast.CallExpr:
+					if se, ok := x.Fun.(*ast.SelectorExpr); ok && len(x.Args) == 0 {
+						if se.Sel.Name == "Type" && isCtyValue(info.TypeOf(se.X)) {
+							return rec(se.X, depth+1) + ".ty"
+						}
+						return rec(se.X, depth+1) + "." + se.Sel.Name + "()"
+					}
+				}
+				return exprStr(e)
+			}
+			return rec(e, 0)
+		}
+		// the type expressions a mismatch condition relies on as 'given' sides
+		mismatchGivens := func(cond ast.Expr, truth bool) []ast.Expr {
+			cond = ast.Unparen(cond)
+			conformanceCall := func(e ast.Expr) *ast.CallExpr {
+				e = ast.Unparen(e)
+				if call, ok := e.(*ast.CallExpr); ok {
+					if isBuiltin(info, call, "len") && len(call.Args) == 1 {
+						e = ast.Unparen(call.Args[0])
+						call, ok = e.(*ast.CallExpr)
+						if !ok {
+							return nil
+						}
+					}
+					if se, ok := call.Fun.(*ast.SelectorExpr); ok && se.Sel.Name == "TestConformance" && len(call.Args) == 1 {
+						return call
+					}
+				}
+				return nil
+			}
+			switch x := cond.(type) {
+			case *ast.CallExpr:
+				if se, ok := x.Fun.(*ast.SelectorExpr); ok && se.Sel.Name == "Equals" && len(x.Args) == 1 && !truth && isCtyType(info.TypeOf(se.X)) && isCtyType(info.TypeOf(x.Args[0])) {
+					return []ast.Expr{se.X, x.Args[0]}
+				}
+			case *ast.BinaryExpr:
+				// TestConformance(...) != nil   /   len(TestConformance(...)) != 0   (the engine renders != as a false ==)
+				if x.Op == token.EQL && !truth {
+					for _, side := range []ast.Expr{x.X, x.Y} {
+						if call := conformanceCall(side); call != nil {
+							return []ast.Expr{call.Fun.(*ast.SelectorExpr).X}
+						}
+					}
+				}
+				if x.Op == token.GTR && truth {
+					if call := conformanceCall(x.X); call != nil {
+						return []ast.Expr{call.Fun.(*ast.SelectorExpr).X}
+					}
+				}
+			}
+			return nil
+		}
+		inspectNoLit(fd.Body, func(n ast.Node) bool {
+			ret, ok := n.(*ast.ReturnStmt)
+			if !ok || len(ret.Results) != 1 {
+				return true
+			}
+			r := ast.Unparen(ret.Results[0])
+			isFalse := isPkgVar(info, r, "cty", "False")
+			if call, ok := r.(*ast.CallExpr); ok && isCall(info, call, "cty.BoolVal") && len(call.Args) == 1 {
+				if tv, ok := info.Types[call.Args[0]]; ok && tv.Value != nil && tv.Value.String() == "false" {
+					isFalse = true
+				}
+			}
+			if !isFalse {
+				return true
+			}
+			if cf == nil {
+				cf = c.CondFacts(fd.Body, info, nil)
+				env = newAliasEnv(info, fd.Body)
+			}
+			if !cf.Located(ret) {
+				return true
+			}
+			type mm struct {
+				why    string
+				givens []ast.Expr
+			}
+			var ms []mm
+			cf.HoldsAt(ret, func(cond ast.Expr, truth bool) bool {
+				if g := mismatchGivens(cond, truth); g != nil {
+					ms = append(ms, mm{exprStr(cond), g})
+				}
+				return false
+			})
+			if len(ms) == 0 {
+				return true
+			}
+			// the facts come out of a map: decide in a fixed order so that the construct key is stable
+			sort.Slice(ms, func(i, j int) bool { return ms[i].why < ms[j].why })
+			dirtyOf := func(givens []ast.Expr) []string {
+				var dirty []string
+				for _, g := range givens {
+					gt := canonT(g)
+					clean := cf.HoldsAt(ret, func(cond ast.Expr, truth bool) bool {
+						call, ok := ast.Unparen(cond).(*ast.CallExpr)
+						if !ok {
+							return false
+						}
+						se, ok := call.Fun.(*ast.SelectorExpr)
+						if !ok || len(call.Args) != 0 {
+							return false
+						}
+						switch se.Sel.Name {
+						case "HasDynamicTypes":
+							return !truth && canonT(se.X) == gt
+						case "HasWhollyKnownType":
+							return truth && canonT(se.X)+".ty" == gt
+						}
+						return false
+					})
+					if !clean {
+						dirty = append(dirty, exprStr(g))
+					}
+				}
+				return dirty
+			}
+			reported := false
+			for _, m := range ms {
+				if dirty := dirtyOf(m.givens); len(dirty) > 0 {
+					key := fmt.Sprintf("cty.%s/False under %s", declName(fd), trunc(m.why, 50))
+					rr.Violation(key, ret.Pos(), fmt.Sprintf("a definite False is returned because of a type mismatch (%s) although %s was not established free of dynamic placeholders on this path (no HasDynamicTypes() == false for it, no HasWhollyKnownType() for its value): a value with a DynamicVal nested inside has a type that will change once that part is known, so the values may still turn out equal / the element may still be a member, and the answer must be unknown", trunc(m.why, 60), strings.Join(dirty, " and ")))
+					reported = true
+					break
+				}
+			}
+			if !reported {
+				rr.OK(fmt.Sprintf("cty.%s/False under %s", declName(fd), trunc(ms[0].why, 50)), ret.Pos(), "every type the mismatch relies on was established free of dynamic placeholders")
 			}
 			return true
 		})
